@@ -4,13 +4,14 @@ gallia.command.config). It goes through the real create_parser / GalliaBaseModel
 makes all 16 provider combinations reachable for every kind (the shipped commands have few required options)."""
 from enum import IntEnum
 from pathlib import Path
-from typing import Any, Literal
+from typing import Annotated, Any, Literal
 
-from pydantic import field_serializer
+from pydantic import BeforeValidator, field_serializer
 
 from gallia.command import AsyncScript
 from gallia.command.base import AsyncScriptConfig
-from gallia.command.config import AutoInt, EnumArg, Field, HexBytes, Idempotent, Ranges, Ranges2D
+from gallia.command.config import AutoInt, EnumArg, Field, HexBytes, HexInt, Idempotent, Ranges, Ranges2D
+from gallia.commands.primitive.uds.dddi import parse_id, parse_mem
 from gallia.transports import TargetURI
 
 
@@ -28,6 +29,13 @@ class SynthConfig(AsyncScriptConfig, cli_group="synthetic", config_section="gall
     r_auto: AutoInt = Field(description="required AutoInt")
     d_auto: AutoInt = Field(0x10, description="AutoInt")
     o_auto: AutoInt | None = Field(None, description="optional AutoInt with const", const=0x7F)
+    r_hexint: HexInt = Field(description="required HexInt")
+    d_hexint: HexInt = Field(0xFF, description="HexInt")
+    d_autoints: list[AutoInt] = Field([1], description="list of AutoInt")
+    d_enums: list[EnumArg[Colour]] = Field([Colour.RED], description="list of enum")
+    d_ids: list[Annotated[tuple[int, int, int], BeforeValidator(parse_id)]] = Field([], description="ID:START:LENGTH")
+    r_mems: list[Annotated[tuple[int, int], BeforeValidator(parse_mem)]] = Field(description="ADDRESS:LENGTH")
+    d_props: dict[str, Any] | None = Field(None, description="properties")
     r_float: float = Field(description="required float")
     d_float: float = Field(1.5, description="float")
     r_str: str = Field(description="required str")
